@@ -1,7 +1,7 @@
 """C04 — Every request gets exactly one outcome."""
 import re
 
-from analysis import (canon, const_int_of, async_param_names, linear, option_edges, membership_test, cmp_intervals, peel_await, Prov, Guards, fmt, fmt_short, walk, roots, short, comparison, find_calls, callee_matches,
+from analysis import (canon, const_int_of, async_param_names, linear, lift_option_predicates, option_edges, membership_test, cmp_intervals, peel_await, Prov, Guards, fmt, fmt_short, walk, roots, short, comparison, find_calls, callee_matches,
                       must_pass, path_to, describe_path, normalised_cmp, const_int_of, contains_call)
 from facts import AnchorError, strip_closure
 from harness import Rule, guarded
@@ -445,6 +445,15 @@ def r2(ctx):
     ini = [bi for bi, t in aw.calls() if callee_matches(t, r"Iterator>::any$")]
     clos = [cb for pth, cb in facts.bodies.items() if pth.startswith(aw.path + "::{closure#")]
     by_flag = any(any(callee_matches(t, r"RequestCall::initiating_session$") for _, t in cb.calls()) for cb in clos)
+    # `self.active_requests.get(a).is_some_and(|rs| rs.iter().any(|r| r.initiating_session()))` (or map_or(false, ..)) says the same as the if-let
+    via_comb = set()
+    for lhs, kind, payload, blk, _l in pw.defs.get(0, ()):
+        if kind == "call" and callee_matches(payload, r"option::Option::<.*>::(is_some_and|map_or)$", r"Option::(is_some_and|map_or)$"):
+            for le in lift_option_predicates(facts, pw.operand_of_call(payload) if hasattr(pw, "operand_of_call") else
+                                             ("call", payload.callee(), tuple(pw.operand(a) for a in payload.args))):
+                if any(isinstance(x, tuple) and x and x[0] == "call" and re.search(r"Iterator>?::any$", short(x[1])) for x in walk(le)):
+                    via_comb.add(blk)
+    ini = ini + sorted(via_comb)
     rule.check(bool(ini) and by_flag and all(x in ini for x in may_true), "…and only if some active request to that address is initiating a session", "awaiting|initiating",
                "is_awaiting_session_to_be_established does not depend on an in-flight session-initiating request", loc=aw.loc(aw.line))
     return rule
